@@ -62,6 +62,12 @@ func generate(w *mon.W) {
 			}
 		}
 	}
+	// one token text several times in one source (each occurrence has its own place)
+	for _, s := range gen.RepeatedTokenSources() {
+		ms := mon.Str(s)
+		c := &Case{Raw: &ms}
+		w.Do("rep|"+s, func(r *mon.R) { Check(c, r) })
+	}
 	mrng := gen.RNG(w.Seed, "c10mut")
 	for _, kind := range gen.WideKinds {
 		for _, n := range gen.WideSizes {
